@@ -6,9 +6,10 @@ use cranelift::{
 use cranelift_jit::{JITBuilder, JITModule};
 use cranelift_module::{DataDescription, Module};
 use debug::debug;
-use hir::common::{ComptimeLoc, ComptimeResult, ComptimeResultMap, Ty};
+use hir::common::{ComptimeLoc, ComptimeResult, ComptimeResultMap, InternTyExt, Ty};
 use hir_ty::LocationResolver;
 use interner::Interner;
+use internment::Intern;
 use itertools::Itertools;
 use num_traits::ToBytes;
 use rustc_hash::{FxHashMap, FxHashSet};
@@ -106,6 +107,60 @@ impl IntBytes for f64 {
                 _ => unreachable!(),
             },
         }
+    }
+}
+
+/// Zeroes every byte of `bytes` that doesn't belong to a value of type `ty`
+/// (struct/array padding and the unused part of a tagged union).
+///
+/// Those bytes are never written by the comptime code, so without this they'd contain
+/// whatever was left on the stack, and that garbage would be baked into the final binary.
+fn zero_padding(ty: Intern<Ty>, bytes: &mut [u8]) {
+    let ty = ty.absolute_intern_ty(true);
+    let end = (ty.size() as usize).min(bytes.len());
+    bytes[end..].fill(0);
+    let bytes = &mut bytes[..end];
+
+    if let Some(members) = ty.as_struct() {
+        let layout = ty.struct_layout().unwrap();
+        let mut covered = 0;
+        for (member, offset) in members.iter().zip(layout.offsets()) {
+            let offset = *offset as usize;
+            bytes[covered..offset].fill(0);
+            covered = offset + member.ty.size() as usize;
+            zero_padding(member.ty, &mut bytes[offset..covered]);
+        }
+        bytes[covered..].fill(0);
+    } else if let Some((len, sub_ty)) = ty.as_array() {
+        let stride = sub_ty.stride() as usize;
+        if stride > 0 {
+            for idx in 0..len as usize {
+                let start = idx * stride;
+                let stop = (start + stride).min(bytes.len());
+                zero_padding(sub_ty, &mut bytes[start..stop]);
+            }
+        }
+    } else if ty.is_tagged_union() {
+        let discrim_offset = ty.enum_layout().unwrap().discriminant_offset() as usize;
+        let discrim = bytes[discrim_offset] as u64;
+        let payload = match ty.as_ref() {
+            Ty::Enum { variants, .. } => variants
+                .iter()
+                .find(|v| ty.get_tagged_union_discrim(v) == Some(discrim))
+                .copied(),
+            Ty::Optional { sub_ty } => (discrim == 1).then_some(*sub_ty),
+            Ty::ErrorUnion {
+                error_ty,
+                payload_ty,
+            } => Some(if discrim == 1 { *payload_ty } else { *error_ty }),
+            _ => None,
+        };
+        let payload_size = payload.map(|p| p.size() as usize).unwrap_or(0);
+        if let Some(payload) = payload {
+            zero_padding(payload, &mut bytes[..payload_size]);
+        }
+        bytes[payload_size..discrim_offset].fill(0);
+        bytes[discrim_offset + 1..].fill(0);
     }
 }
 
@@ -302,12 +357,13 @@ pub fn eval_comptime_blocks<'a>(
 
                 comptime(raw);
 
-                let bytes = unsafe {
+                let mut bytes = unsafe {
                     let slice = std::ptr::slice_from_raw_parts(raw, return_ty.size() as usize)
                         as *mut [u8];
 
                     Box::from_raw(slice)
                 };
+                zero_padding(return_ty, &mut bytes);
 
                 results.insert(ctc, ComptimeResult::Data(bytes));
             }
